@@ -190,11 +190,12 @@ package builder
 //@
 // (C19 ":map/:conv paths always compare case-sensitively": the anchors below demand pattern == path(lhs), plain
 // string equality, whatever the case rule)
+// (C02 "touch nothing else": which destination a notation designates is decided here, by the same anchors)
 //@ func (*assignmentBuilder).matchStructFieldAndStruct(b, lhs, rhs, additionalArgs) (a, err)
 //@   decreases 4*depthOf(bmodel.parentOf(lhs)) + 2
 //@   requires memberOK(lhs)
 //@   use T11(derefT(bmodel.exprType(bmodel.parentOf(lhs))))
-//@   props C09, C19
+//@   props C09, C19, C02
 //@   reveal wfNode, exprType, returnsError, parentOf, objNameOf
 //@   requires wfB(b) && convsReady(b.opts) && templReady(b.opts) && bmodel.wfNode(lhs) && bmodel.wfNode(rhs) && plainPath(rhs) && argsReady(additionalArgs)
 //@   effects log, warn
@@ -202,10 +203,10 @@ package builder
 //@   ensures {C06,C05} option.shouldSkip(old(b.opts), path(lhs)) ==> a == box(gmodel.SkipField{LHS: bmodel.assignExpr(lhs)}) && err == nil
 //@   ensures {C05,C06} err == nil && option.skipInv(b.opts) && okResult(a, bmodel.assignExpr(lhs))
 //@   ensures {C14} kept(option.pmInv, *option.PatternMatcher)
-//@   atcall createWithConverter: {C06,C19} !option.shouldSkip(b.opts, path(lhs)) && converter.m.dst.pattern == path(lhs) && noConv(b.opts, path(lhs), $k)
-//@   atcall createWithMapper: {C06,C19} !option.shouldSkip(b.opts, path(lhs)) && noConv(b.opts, path(lhs), len(b.opts.Converters)) && mapper.dst.pattern == path(lhs) && noMap(b.opts, path(lhs), $k)
-//@   atcall createWithTemplatedMapper: {C06,C19} !option.shouldSkip(b.opts, path(lhs)) && noConv(b.opts, path(lhs), len(b.opts.Converters)) && noMap(b.opts, path(lhs), len(b.opts.NameMapper)) && mapper.dst.pattern == path(lhs) && noTMap(b.opts, path(lhs), $k)
-//@   atcall Literal: {C06,C19} !option.shouldSkip(b.opts, path(lhs)) && noConv(b.opts, path(lhs), len(b.opts.Converters)) && noMap(b.opts, path(lhs), len(b.opts.NameMapper)) && noTMap(b.opts, path(lhs), len(b.opts.TemplatedNameMapper)) && setter.dst.pattern == path(lhs) && noLit(b.opts, path(lhs), $k)
+//@   atcall createWithConverter: {C06,C19,C02} !option.shouldSkip(b.opts, path(lhs)) && converter.m.dst.pattern == path(lhs) && noConv(b.opts, path(lhs), $k)
+//@   atcall createWithMapper: {C06,C19,C02} !option.shouldSkip(b.opts, path(lhs)) && noConv(b.opts, path(lhs), len(b.opts.Converters)) && mapper.dst.pattern == path(lhs) && noMap(b.opts, path(lhs), $k)
+//@   atcall createWithTemplatedMapper: {C06,C19,C02} !option.shouldSkip(b.opts, path(lhs)) && noConv(b.opts, path(lhs), len(b.opts.Converters)) && noMap(b.opts, path(lhs), len(b.opts.NameMapper)) && mapper.dst.pattern == path(lhs) && noTMap(b.opts, path(lhs), $k)
+//@   atcall Literal: {C06,C19,C02} !option.shouldSkip(b.opts, path(lhs)) && noConv(b.opts, path(lhs), len(b.opts.Converters)) && noMap(b.opts, path(lhs), len(b.opts.NameMapper)) && noTMap(b.opts, path(lhs), len(b.opts.TemplatedNameMapper)) && setter.dst.pattern == path(lhs) && noLit(b.opts, path(lhs), $k)
 //@   atcall structFieldAndStructGettersAndFields: {C06,C04} !option.shouldSkip(b.opts, path(lhs)) && noConv(b.opts, path(lhs), len(b.opts.Converters)) && noMap(b.opts, path(lhs), len(b.opts.NameMapper)) && noTMap(b.opts, path(lhs), len(b.opts.TemplatedNameMapper)) && noLit(b.opts, path(lhs), len(b.opts.Literals))
 //@   loop 1 invariant $k <= len(b.opts.Converters) && noConv(b.opts, path(lhs), $k)
 //@   loop 2 invariant $k <= len(b.opts.NameMapper) && noMap(b.opts, path(lhs), $k)
